@@ -419,6 +419,11 @@ func (b *built) once(seed uint64, traced bool) *runObs {
 				if atomic.LoadInt32(&rs.state[id]) == 1 {
 					busy = true
 				}
+				// a task whose pre-handler has run (submit) has been handed to a goroutine that may
+				// not have reached the node body yet
+				if atomic.LoadInt32(&rs.starts[id]) < atomic.LoadInt32(&rs.pre[id]) {
+					busy = true
+				}
 			}
 			if !busy {
 				break
